@@ -215,6 +215,12 @@ func (f *File) enterWriteMode() error {
 		"name": f.name,
 	})
 
+	// Writes continue where the reads left off
+	cursor := int64(0)
+	if f.readOpReader != nil {
+		cursor = int64(f.readOpReader.BytesRead)
+	}
+
 	if f.readOpReader != nil || f.readOpWriter != nil {
 		if err := f.closeWithoutLocking(); err != nil {
 			return err
@@ -277,7 +283,7 @@ func (f *File) enterWriteMode() error {
 		}
 
 		if !f.flags.Append {
-			if _, err := f.writeBuf.Seek(0, io.SeekStart); err != nil {
+			if _, err := f.writeBuf.Seek(cursor, io.SeekStart); err != nil {
 				return err
 			}
 		}
